@@ -61,7 +61,7 @@ PROPS['C09'] = dict(
 )
 PROPS['C18'] = dict(
     title='strip_comments',
-    units=['depth', 'wrap', 'arms', 'rtmu'],
+    units=['depth', 'wrap', 'arms', 'rtmu', 'split'],
     shims=['A-glue'],
     design='DESIGN.md 3/C18',
     technique='contract-based deductive verification (Verus): flag forwarding on the recursion skeleton and at the entry wrappers; arm-guard obligations on the lifted match arms',
@@ -214,7 +214,7 @@ PROPS['C19'] = dict(
 )
 KANI = dict(module='vx.kanieng', tier='thorough')
 PROPS['C03']['engines'] = [KANI, dict(module='vx.boundeng')]
-PROPS['C18']['engines'] = [REPLAY]
+PROPS['C18']['engines'] = [dict(module='gvc.engine', args=dict(analyses=('pptotal',))), REPLAY]
 PROPS['C05']['engines'] = [dict(module='vx.boundeng'), dict(module='gvc.engine', args=dict(analyses=('shadow', 'kwsites')))]
 PROPS['C11']['engines'] = [dict(module='gvc.engine', args=dict(analyses=('shadow', 'kwsites')))]
 PROPS['C04']['engines'] = [dict(module='gvc.engine', args=dict(analyses=('frame',))), REPLAY]
